@@ -271,3 +271,28 @@ Proof.
     intros k q Hk Hq. apply Ho; [exact Hk|]. apply Hperm. exact Hq.
   - intros q Hq. apply Hz; [apply Hwf; exact Ht|]. apply Hperm. exact Hq.
 Qed.
+
+(** * Non-vacuity: the hypotheses of c03_partial are met *)
+
+Definition ex_x : name := [120%N].
+Definition ex_y : name := [121%N].
+
+(* 3 x^2 y^-1 + 2 x^(1/2), differentiated in x at x = 3/2 with y = 2 *)
+Example c03_partial_hyps :
+  let ts := [ {| t_coef := 3; t_vars := [(ex_x, 2); (ex_y, -1)] |};
+              {| t_coef := 2; t_vars := [(ex_x, 1 / 2)] |} ] in
+  wf_terms ts /\ terms_bound ts (upd [(ex_y, 2)] ex_x (3 / 2)) /\ dom_deriv ts ex_x (3 / 2).
+Proof.
+  cbn zeta. split; [|split].
+  - intros t [<-|[<-|[]]]; unfold wf_term; cbn [t_vars keys map fst].
+    + constructor; [intros [H|[]]; discriminate H|]. constructor; [intros []|constructor].
+    + constructor; [intros []|constructor].
+  - intros t Ht k Hk.
+    assert (Hk' : k = ex_x \/ k = ex_y).
+    { destruct Ht as [<-|[<-|[]]]; cbn [t_vars keys map fst In] in Hk;
+        intuition (subst; auto). }
+    destruct Hk' as [->| ->].
+    + rewrite lookup_upd_same. discriminate.
+    + rewrite lookup_upd_other by discriminate. cbn. discriminate.
+  - intros t Ht p Hp. right. lra.
+Qed.
